@@ -92,7 +92,8 @@ def cstr(ctx, prog):
         rows = [Row([("is", inner, 0), eq(lwn, L)], ok, name="first nul is the last byte"),
                 Row([("is", inner, 0), ne(lwn, L)], er, kind="any", name="nul before the end"),
                 Row([("is", inner, 1)], er, name="no nul")]
-        _cmp(ctx, "CSTR", cfg + "|from_bytes_with_nul", b, paths, rows, vdom={inner: [0, 1]})
+        # (the scan returns Ok{bytes[..i+1], i+1}: the length with the nul is at least 1 and at most the input's length - scan template above)
+        _cmp(ctx, "CSTR", cfg + "|from_bytes_with_nul", b, paths, rows, vdom={inner: [0, 1]}, facts_=[le(Int(1), lwn), le(lwn, L)])
     b = ctx.anchor(prog, CS + "to_bytes_with_nul")
     if b is not None:
         paths = sym.through_loops(b, prog, keep_back=True)
@@ -229,10 +230,10 @@ def _strip(paths):
     return paths
 
 
-def _cmp(ctx, rule, key, b, paths, rows, vdom=None):
+def _cmp(ctx, rule, key, b, paths, rows, vdom=None, facts_=()):
     from .c08 import arith_constraints
     try:
-        mism, n, dec = table.compare(_strip(paths), rows, variant_domain=vdom, constraints=arith_constraints(paths))
+        mism, n, dec = table.compare(_strip(paths), rows, variant_domain=vdom, constraints=arith_constraints(paths) + list(facts_))
     except table.Undecided as e:
         _viol(ctx, rule, key, "undecided: %s" % e, b)
         return
